@@ -57,6 +57,9 @@ class LZWDecoder:
         elif code == 257:
             pass
         elif not self.prevbuf:
+            if code >= len(self.table):
+                # a code before the first clear-table code, or beyond the table
+                raise CorruptDataError
             x = self.prevbuf = cast(bytes, self.table[code])  # assume not None
         else:
             if code < len(self.table):
